@@ -173,10 +173,18 @@ class DataFrame(Entity, DataSet):
             return self._read_data(slc=slc)[name[0]]
         if group_by_cols:
             gcol = list()
+            col_types = set()
             for col_name in name:
                 data = self._read_data(slc=slc)[col_name]
+                col_types.add(data.dtype)
                 data = [i for i in data]
                 gcol.append(data)
+            if len(col_types) > 1:
+                # columns of different types: one array of a common type
+                # would turn numbers into text next to a text column and
+                # large integers into floats next to a float column; keep
+                # every cell as it was read
+                return np.array(gcol, dtype=object)
             return np.array(gcol)
 
         return self._read_data(slc=slc)[name]
